@@ -47,6 +47,7 @@ type netOpts struct {
 	optA, optB     func(o *gen.NodeOptions)
 	isA            bool
 	atomMapA       map[gen.Atom]gen.Atom // route.AtomMapping of the initiator (node A) for this connection
+	samePids       bool                  // keep the process ids of the two nodes in step (both start at 1001)
 }
 
 func startNetNode(name string, o netOpts) *node {
@@ -259,6 +260,13 @@ func netBody(o netOpts, build func(nw *NetWorld)) func(ex *vsched.Exec) string {
 		// seconds) differ, as they do for any two nodes outside a test
 		ex.Now += 3_000_000_000
 		nb := startNetNode("b@localhost", o)
+		// nor do their counters run in step: unless a scenario asks for particular ids, B's process ids are two ahead of
+		// A's and its reference counter is elsewhere (equal ids on both sides would hide a sender/receiver or a
+		// local/remote mix-up)
+		if o.skipA == 0 && o.skipB == 0 && !o.samePids {
+			o.skipB = 2
+		}
+		nb.uniqID += 3 << 20
 		nw.a = &World{ex: ex, n: na, recs: map[string]*rec{}, pids: map[string]gen.PID{}, tag: "A-"}
 		nw.b = &World{ex: ex, n: nb, recs: map[string]*rec{}, pids: map[string]gen.PID{}, tag: "B-"}
 		// dummy processes are spawned outside the scheduler (they only consume process ids)
